@@ -4,6 +4,7 @@ run the engine over the real AST, collect and discharge the obligations.
 """
 
 import ast
+import inspect
 import time
 import traceback
 
@@ -243,8 +244,21 @@ def verify_function(qualname, opts=None):
                 _frame_obligations(eng, con, o, old, s, fn.lineno)
             elif oc.kind == "raise":
                 cond = con.raises.get(oc.val)
-                allowed = cond(o) if cond is not None else z3.BoolVal(False)
+                if cond is None:
+                    allowed = z3.BoolVal(False)
+                elif len(inspect.signature(cond).parameters) >= 2:
+                    # condition over the entry state and the state in which the exception is raised
+                    # (locals of the function are visible by name)
+                    allowed = cond(o, NS(s, dict(args)))
+                else:
+                    allowed = cond(o)
                 site = s.ghost.get("raise_site", "?")
+                only_from = (getattr(con, "raises_from", None) or {}).get(oc.val)
+                if isinstance(only_from, str):
+                    only_from = (only_from,)
+                if only_from is not None and not any(x in str(site) for x in only_from):
+                    # the contract allows this exception only out of the named callees
+                    allowed = z3.BoolVal(False)
                 eng.oblige(s, f"raises[{oc.val}]<-{site}", "exc", allowed, fn.lineno)
             else:
                 raise OutOfSubset(f"outcome {oc.kind} at function level")
